@@ -35,24 +35,45 @@ Theorem sort_patches_perm : forall ps, Permutation (sort_patches ps) ps.
 Proof. exact PatchProofs.sort_patches_perm. Qed.
 Print Assumptions sort_patches_perm.
 
-(* "the tool never damages the file it rewrites" is FALSE of the code as it
-   stands: refuted by a concrete pair of overlapping, well-formed, in-bounds
-   patches (replayed on `yr fix warnings` by the harness) *)
-Theorem apply_never_damages_refuted : ~ (forall ps s, Forall wf ps -> in_bounds ps s -> exists out, apply ps s = Ok out).
+(* "the tool never damages the file it rewrites"
+     forall ps s, Forall wf ps -> in_bounds ps s -> exists out, apply ps s = Ok out
+   depends on what cli/src/commands/fix.rs does with overlapping patches, a fact
+   re-read from the source on every run (Gen/FixApply.v):
+   - without the guard that skips them it is FALSE: refuted by a concrete pair
+     of overlapping, well-formed, in-bounds patches (those of
+     `pe.is_pe == 1 == 1`; replayed on `yr fix warnings` by the harness), and
+     with the file truncated before the loop the file is left damaged;
+   - with the guard it holds for every patch list and text, and the result is
+     the reference splice of the patches that are kept. *)
+Theorem apply_never_damages_refuted : skips_overlapping = false ->
+  ~ (forall ps s, Forall wf ps -> in_bounds ps s -> exists out, apply ps s = Ok out).
 Proof. exact PatchProofs.apply_never_damages_refuted. Qed.
 Print Assumptions apply_never_damages_refuted.
 
 Theorem overlap_damages_file :
-  sorts_by_start = true -> truncates_before_writing = true ->
+  sorts_by_start = true -> truncates_before_writing = true -> skips_overlapping = false ->
   apply witness_patches witness_text = Damaged (repeat 7%N 66 ++ [1]%N).
 Proof. exact PatchProofs.overlap_damages_file. Qed.
 Print Assumptions overlap_damages_file.
 
-(* ... and true under the guard that excludes the known class *)
+Theorem apply_never_damages_repaired : skips_overlapping = true ->
+  forall ps s, Forall wf ps -> in_bounds ps s -> exists out, apply ps s = Ok out.
+Proof. exact PatchProofs.apply_never_damages_repaired. Qed.
+Print Assumptions apply_never_damages_repaired.
+
+Theorem apply_skips_spec : skips_overlapping = true -> forall ps s,
+  apply ps s = Ok (splice (keep 0 (length s) (sort_patches ps)) s).
+Proof. exact PatchProofs.apply_skips_spec. Qed.
+Print Assumptions apply_skips_spec.
+
+(* whichever version: disjoint patches are never refused *)
 Theorem apply_never_damages_disjoint : forall ps s,
   chain 0 (sort_patches ps) -> in_bounds ps s -> exists out, apply ps s = Ok out.
 Proof. exact PatchProofs.apply_never_damages_disjoint. Qed.
 Print Assumptions apply_never_damages_disjoint.
+
+(* which of the two holds non-vacuously for the current source *)
+Eval vm_compute in (sorts_by_start, truncates_before_writing, skips_overlapping).
 
 (* hex pattern -> text literal: read back as ONE literal with the same bytes *)
 Theorem read_escape : forall bs rest, read_literal (escape bs ++ rest) = Some (bs, rest).
